@@ -27,6 +27,8 @@ class C14(Prop):
                     for hd in head_variants(6, tg):
                         ops.append(mk('dect %s b%s' % (t, (hd + body).hex()), k='tag-alias', body=body.hex(), t=t, tagnum=tg))
                 ops.append(mk('dect %s b%s' % (t, body.hex()), k='notag', body=body.hex(), t=t, tagnum=None))
+                # exactly the tagged item: nothing after it (informed round 14: an inherent from_tagged_slice without the trailing-bytes check)
+                for sfx in (b'\x00', b'\xf6', body[:1]): ops.append(mk('dect %s b%s' % (t, (refcbor.head(6, tag) + body + sfx).hex()), k='tagged-suffix', t=t, must_reject=True))
                 ops.append(mk('dect %s b%s' % (t, (refcbor.head(6, tag) * 2 + body).hex()), k='double', body=body.hex(), t=t, tagnum=-1))
                 ops.append(mk('dec %s b%s' % (t, (refcbor.head(6, tag) + body).hex()), k='untagged-on-tagged', t=t, must_reject=True))
                 # the body wrapped in a byte string is not the body (informed round 9: the tagged decoder unwrapped it)
@@ -558,7 +560,7 @@ class C20(Prop):
                   '(map i1 (map t7a i1 t61 i2) i0 (arr))', '(map i-1 i0 i-25 i1 i24 i2)', '(arr (arr (map b02 i1 b01 i2)))', '(map i1 i1 i1 i2)']
         # … and byte strings / texts whose content is the encoding of a key, a header, a key set in wire order: values like any other
         # (informed round 11: a byte string that decodes as a COSE_Key canonicalised recursively)
-        NESTED += ['ba203260101', 'ba2200103' + '26' if False else 'ba20326200101'[:0] + 'ba3200121022203', 'b81a203260101', 'ba201040482' + '0201', 'b43a10126', 'ba1010' + '1', '(arr ba203260101)', '(tag 24 ba203260101)', '(arr (map i-1 baabb i1 i4))', '(tag 99 (map i3 i-7 i1 i2))', '(tag 24 (map i-1 b01 i1 i4))', '(tag 99 (tag 99 (map i3 i-7 i1 i2)))', '(arr (map i3 i-7 i1 i1) (map i1 i2))', '(map i1 (arr (map i-1 b01 i1 i4)))', 't' + b'{3: -7, 1: 1}'.hex()]
+        NESTED += ['ba203260101', 'ba2200103' + '26' if False else 'ba20326200101'[:0] + 'ba3200121022203', 'b81a203260101', 'ba201040482' + '0201', 'b43a10126', 'ba1010' + '1', '(arr ba203260101)', '(tag 24 ba203260101)', '(arr (map i-1 baabb i1 i4))', '(tag 99 (map i3 i-7 i1 i2))', '(tag 24 (map i-1 b01 i1 i4))', 'f7ff8000000000001', 'ffff8000000000000', 'f7ff4000000000000', 'f8000000000000000', '(arr f7ff8000000000001)', 'f7ff8000000000000', 'f3ff8000000000000', '(tag 99 (tag 99 (map i3 i-7 i1 i2)))', '(arr (map i3 i-7 i1 i1) (map i1 i2))', '(map i1 (arr (map i-1 b01 i1 i4)))', 't' + b'{3: -7, 1: 1}'.hex()]
         VALS = ['N', 'i1', 'b00', '(arr)', 't61'] * 2 + NESTED
         def keyform(params):
             kty = r.choice(['A1', 'A2', 'A4', 'X6b']); kid = r.choice(['b', 'b01']); alg = r.choice(['-', 'A-7', 'P-70000', 'X61'])
